@@ -165,6 +165,7 @@ type vWire struct {
 	closed      int
 	stamp       bool  // read the model clock at every Write
 	stamps      []int // those readings (ns)
+	writeGate   chan struct{} // if non-nil: every Write first waits for a token (slow / bursty peer)
 	hold        chan struct{} // if non-nil: when the chunks are exhausted Read blocks until Close
 }
 
@@ -204,6 +205,21 @@ func (w *vWire) Read(p []byte) (int, error) {
 }
 
 func (w *vWire) Write(p []byte) (int, error) {
+	if w.writeGate != nil {
+		// the peer reads only when the harness lets it; closing the socket releases a blocked writer
+		if w.hold != nil {
+			select {
+			case <-w.writeGate:
+			case <-w.hold:
+				return 0, errors.New("vWire: write on closed connection")
+			}
+		} else {
+			<-w.writeGate
+		}
+	}
+	if w.closed > 0 {
+		return 0, errors.New("vWire: write on closed connection")
+	}
 	if w.stamp {
 		w.stamps = append(w.stamps, int(vNow().Sub(time.Time{})))
 		vMark("write")
@@ -409,6 +425,7 @@ func vEventStr(kind string, i int) string { return "" }
 type vDialer struct {
 	addrs []string
 	wire  *vWire
+	wires []*vWire // if set: the n-th dial gets wires[n]
 	fail  bool
 }
 
@@ -416,6 +433,9 @@ func (d *vDialer) Dial(network, addr string) (net.Conn, error) {
 	d.addrs = append(d.addrs, addr)
 	if d.fail {
 		return nil, errors.New("vDialer: refused")
+	}
+	if n := len(d.addrs) - 1; n < len(d.wires) {
+		return d.wires[n], nil
 	}
 	return d.wire, nil
 }
